@@ -94,6 +94,18 @@ Proof.
     eapply path_step; [exact He | exact Hb].
 Qed.
 
+(* induction from the right *)
+Lemma path_rind edges a (P : A -> Prop) :
+  P a -> (forall b c, path edges a b -> P b -> In (b, c) edges -> P c) ->
+  forall x, path edges a x -> P x.
+Proof.
+  intros Ha Hs x Hp. revert P Ha Hs.
+  induction Hp as [a|a b c He Hp IH]; intros P Ha Hs; [exact Ha|].
+  apply (IH P).
+  - apply (Hs a b); [apply path_refl | exact Ha | exact He].
+  - intros b' c' Hp' Hb' He'. apply (Hs b' c'); [eapply path_step; eassumption | exact Hb' | exact He'].
+Qed.
+
 (* ---- soundness ---- *)
 Lemma closure_sound edges fuel : forall acc x,
   memb x (closure_from edges fuel acc) = true -> exists a, In a acc /\ path edges a x.
